@@ -131,6 +131,7 @@ let proto file =
          let app op = g := gstep !g (StApp (pn, op)) in
          (match rest with
           | [ "setup" ] -> app (OSetup (pi = 0, N0))
+          | [ "reconnect" ] -> app (OSetup (false, N0))
           | [ "reg"; t ] -> app (OReg (nd t))
           | [ "switches"; a; b; c ] -> app (OSwitches (a = "1", b = "1", c = "1"))
           | "spawn" :: h :: marked :: comps ->
